@@ -448,9 +448,11 @@ def proxy_keys(cnode, new_attr):
                                     o2 |= deps(caller, names(e)) & callps
                                 frontier.append((caller_name, kexpr.id, o2 - {kexpr.id}))
                                 continue
+                            # both closures are under-approximated: a parameter is required in the key only when EVERY definition of
+                            # the argument depends on it (a search-strategy flag used on a fallback path only is not demanded)
                             need = set()
                             for e in oexprs:
-                                need |= deps(caller, names(e)) & callps
+                                need |= deps(caller, names(e), under=True) & callps
                             have = deps(caller, names(kexpr), under=True) & callps
                             missing = sorted(need - have)
                             if missing:
